@@ -27,7 +27,7 @@ import time
 OUT_SYSCALLS = "write,pwrite64,writev,copy_file_range,sendfile"
 REN_SYSCALLS = "rename,renameat,renameat2"
 TRACE_SYSCALLS = "openat,rename,renameat,renameat2,unlink,unlinkat,linkat,ftruncate," + OUT_SYSCALLS
-MODES = ["onefile", "twofiles", "noconcat"]
+MODES = ["onefile", "twofiles", "noconcat", "onefile-big"]
 
 
 def fsize_limiter(nbytes, ignore_sigxfsz):
@@ -192,7 +192,7 @@ def run(ctx):
             ops, counts = parse_trace(trace, dest)
             final_sizes = sorted({os.path.getsize(os.path.join(dest, f)) for f in os.listdir(dest) if os.path.isfile(os.path.join(dest, f))})
             old = "out.jbk" if with_prev else "-"
-            ops_f.write(f"hist.fs {mode} out.jbk {old} {','.join(ops) if ops else '-'}\n")
+            ops_f.write(f"hist.fs {mode.split('-')[0]} out.jbk {old} {','.join(ops) if ops else '-'}\n")
             imp_f.write(f"disciplined ops={len(ops)} renames={sum(1 for o in ops if o.startswith('R:'))} instance-of-model\n")
             ids_f.write(f"{my}\n")
             r["lines"] += 1
